@@ -13,9 +13,15 @@
 // "class of z in H(K_t) lies in the image of H(K_{b-1})"  <=>  z in Z(K_{b-1}) + B(K_t)  <=>  (z is a cycle)
 // z in C(K_{b-1}) + B(K_t)  <=>  the residue of z modulo an echelon basis (pivot = youngest cell) of B(K_t) only
 // uses cells older than b.
-// For Z_p, p > 2, a Cycle carries no coefficients: the chain is recovered as the generator of the cycles supported in the
-// returned support when that space is 1-dimensional (then everything above is checked over Z_p); otherwise only the
-// necessary conditions "some cycle in the support has a non-zero coefficient on the birth cell / on every listed cell".
+// For Z_p, p > 2, a Cycle carries no coefficients.  Most of the time the library's own column (U column of the birth cell /
+// chain column whose pivot is the birth cell) is read, after the cycles, as a witness: when its support is the returned cycle
+// and it passes everything above as a chain with coefficients, it is the chain of the bar.  Otherwise the chain is recovered
+// as the generator of the cycles supported in the returned support when that space is 1-dimensional (then everything above
+// is checked over Z_p); otherwise only the necessary conditions "some cycle in the support has a non-zero coefficient on the
+// birth cell / on every listed cell / is born and dies with the bar".
+// Removals: remove_last, and remove_maximal_cell (both overloads) of maximal cells in the middle of the filtration where the
+// option set offers it (it performs vine swaps internally; no other swap is done here).  Between the phases the matrix is
+// sometimes replaced by a copy / a moved object / an assigned or swapped scratch matrix.
 #ifndef VERIF_C08_BODY_H_
 #define VERIF_C08_BODY_H_
 
@@ -24,6 +30,7 @@
 #include <gudhi/Fields/Zp_field_operators.h>
 
 #include <array>
+#include <functional>
 #include <memory>
 #include <unordered_map>
 
@@ -40,11 +47,12 @@ using Gudhi::persistence_matrix::Column_types;
 using Gudhi::persistence_matrix::Matrix;
 
 // row access: 0 none, 1 intrusive rows, 2 set rows
+// xf: extra flags, 1: has_column_and_row_swaps (the lazy row swap machinery under the RU / chain matrix), 2: Index = int
 template <bool z2, Column_types ct, bool ru, Column_indexation_types idx, bool barcode, bool maxdim, bool mapc, int ra,
-          bool remrows, bool vine>
+          bool remrows, bool vine, int xf = 0>
 struct Opt {
   using Field_coeff_operators = Gudhi::persistence_fields::Zp_field_operators<>;
-  using Index = unsigned int;
+  using Index = typename std::conditional<(xf & 2) != 0, int, unsigned int>::type;
   using Dimension = int;
 
   static const bool is_z2 = z2;
@@ -53,7 +61,7 @@ struct Opt {
 
   static const bool is_of_boundary_type = ru;
   static const bool has_column_compression = false;
-  static const bool has_column_and_row_swaps = false;
+  static const bool has_column_and_row_swaps = (xf & 1) != 0;
 
   static const bool has_vine_update = vine;
   static const bool can_retrieve_representative_cycles = true;
@@ -63,7 +71,7 @@ struct Opt {
   static const bool has_intrusive_rows = ra == 1;
   static const bool has_removable_rows = remrows;
 
-  // chain matrices with vine updates only offer remove_last with a map container
+  // chain matrices with vine updates only offer remove_last / remove_maximal_cell with a map container
   static const bool has_removable_columns = ru || !vine || mapc;
   static const bool has_map_column_container = mapc;
   static const bool has_matrix_maximal_dimension_access = maxdim;
@@ -214,6 +222,8 @@ template <class O>
 struct Driver {
   typedef Matrix<O> M;
   typedef typename M::ID_index ID;
+  typedef typename M::Index MIdx;
+  typedef typename M::Pos_index Pos;
   typedef typename M::Bar GBar;
   typedef typename M::Element Element;
   typedef typename std::conditional<O::is_z2, std::vector<ID>, std::vector<std::pair<ID, Element>>>::type Boundary;
@@ -221,17 +231,36 @@ struct Driver {
   static constexpr bool kZ2 = O::is_z2;
   static constexpr bool kBarcode = O::has_column_pairings;
   static constexpr bool kRemovable = O::has_removable_columns;
+  static constexpr bool kVine = O::has_vine_update;
+  static constexpr bool kMap = O::has_map_column_container;
+  static constexpr bool kById = O::column_indexation_type == Column_indexation_types::IDENTIFIER;
+  static constexpr bool kByPos = O::column_indexation_type == Column_indexation_types::POSITION;
+  // chain + vine without stored barcode: only the constructors with comparators exist
+  static constexpr bool kCmp = !kRU && kVine && !kBarcode;
+  // remove_maximal_cell(index) and remove_maximal_cell(id, columnsToSwap).  Both perform vine swaps, which need truthful
+  // comparators in a matrix without stored barcode: not used there (the comparator-constructed configuration only sees
+  // remove_last, which performs no swap).
+  static constexpr bool kRmc1 = kRemovable && kVine && (kRU || (kMap && kBarcode));
+  static constexpr bool kRmc2 = kRemovable && kVine && !kRU && kMap && kBarcode && !kByPos;
+  // the library's own column as a witness of the coefficients (Z_p): U column of an RU matrix (not offered with IDENTIFIER
+  // indexing), column with the birth cell as pivot of a chain matrix
+  static constexpr bool kWitness = !kZ2 && (!kRU || !kById);
 
   vh::Case& c;
   Filtration F;
   i64 p = 2;
-  int idmode = 0;            // 0: ids implicit (= position), 1: explicit ids equal to the position, 2: explicit ids with gaps
+  int idmode = 0;            // 0: ids implicit (= position), 1: explicit ids (position / last id + 1), 2: explicit ids with gaps
   bool omit_dim = false;
-  std::vector<ID> ids;       // position -> id
+  // position -> label of the cell in the boundaries and in the rows.  Chain flavour: the id given at the insertion, it stays
+  // with the cell.  RU flavour: rows are relabelled by the swaps of remove_maximal_cell, the labels stay with the positions.
+  std::vector<ID> ids;
+  std::vector<ID> cids;      // RU flavour: position -> id given at the insertion (column handle with IDENTIFIER indexing)
   std::unique_ptr<M> m;
+  std::shared_ptr<long> cmp_calls = std::make_shared<long>(0);
   std::string base_sig;
   // per case statistics for the non-triviality rule
-  int obs_done = 0, max_finite = 0, max_dim_bar = 0; bool saw_nested = false, saw_removal = false;
+  int obs_done = 0, max_finite = 0, max_dim_bar = 0; bool saw_nested = false, saw_removal = false, saw_max_removal = false;
+  bool no_more_insertions = false;
   size_t max_cells = 0;
 
   explicit Driver(vh::Case& c_) : c(c_) {}
@@ -250,9 +279,67 @@ struct Driver {
     return s + "]";
   }
   ID next_id(vh::Rng& r) const {
-    if (idmode != 2) return (ID)ids.size();
-    ID last = ids.empty() ? (ID)r.below(3) : ids.back() + 1;
-    return last + (ID)r.below(4);
+    if (idmode != 2) {
+      if (kRU || ids.empty()) return (ID)ids.size();
+      return (ID)(ids.back() + 1);   // = ids.size() unless a cell that was not the last one has been removed
+    }
+    ID last = ids.empty() ? (ID)r.below(3) : (ID)(ids.back() + 1);
+    return (ID)(last + (ID)r.below(4));
+  }
+
+  // ---------------------------------------------------------------- construction
+  // how: 0 default constructor + set_characteristic, 1 reserving constructor, 2 from the ordered boundaries `cols`
+  std::unique_ptr<M> make_matrix(int how, unsigned res, const std::vector<Boundary>* cols) {
+    std::unique_ptr<M> x;
+    typedef typename M::Characteristic Ch;
+    if constexpr (kCmp) {
+      std::shared_ptr<long> calls = cmp_calls;
+      std::function<bool(Pos, Pos)> bc = [calls](Pos a, Pos b) { ++*calls; return a < b; };
+      std::function<bool(Pos, Pos)> dc = [calls](Pos a, Pos b) { ++*calls; return a < b; };
+      if (how == 0) { x.reset(new M(bc, dc)); if constexpr (!kZ2) x->set_characteristic((Ch)p); }
+      else if (how == 1) x.reset(new M(res, bc, dc, (Ch)p));
+      else x.reset(new M(*cols, bc, dc, (Ch)p));
+    } else {
+      if (how == 0) { x.reset(new M()); if constexpr (!kZ2) x->set_characteristic((Ch)p); }
+      else if (how == 1) { if constexpr (kZ2) x.reset(new M(res)); else x.reset(new M(res, (Ch)p)); }
+      else { if constexpr (kZ2) x.reset(new M(*cols)); else x.reset(new M(*cols, (Ch)p)); }
+    }
+    return x;
+  }
+
+  // a matrix with a little content of its own and computed cycles, to be overwritten / swapped away
+  std::unique_ptr<M> make_scratch(vh::Rng& r) {
+    std::unique_ptr<M> x = make_matrix(r.chance(1, 2) ? 0 : 1, 4, nullptr);
+    if (r.chance(1, 2)) {
+      Boundary e;
+      x->insert_boundary((ID)0, e, 0); x->insert_boundary((ID)1, e, 0);
+      if constexpr (kZ2) { e.push_back((ID)0); e.push_back((ID)1); }
+      else { e.emplace_back((ID)0, (Element)(p - 1)); e.emplace_back((ID)1, (Element)1); }
+      x->insert_boundary((ID)2, e, 1);
+      if (r.chance(1, 2)) (void)x->get_representative_cycles().size();
+      c.count("op.scratch_with_content");
+    }
+    return x;
+  }
+
+  // replaces the matrix by a copy / a moved object / an assigned or swapped scratch matrix
+  void transfer(vh::Rng& r) {
+    unsigned how = (unsigned)r.below(4);
+    if (p > 1000 && how >= 2) how -= 2;   // the table of inverses of a scratch matrix costs seconds for a large prime
+    if (how == 0) {
+      c.log("transfer: matrix replaced by a copy of itself (copy constructor), original destroyed");
+      std::unique_ptr<M> x(new M(*m)); m = std::move(x); c.count("op.transfer.copy_constructor");
+    } else if (how == 1) {
+      c.log("transfer: matrix replaced by a moved object (move constructor), moved-from object destroyed");
+      std::unique_ptr<M> x(new M(std::move(*m))); m = std::move(x); c.count("op.transfer.move_constructor");
+    } else if (how == 2) {
+      c.log("transfer: scratch matrix = matrix (assignment), original destroyed");
+      std::unique_ptr<M> x = make_scratch(r); *x = *m; m = std::move(x); c.count("op.transfer.assignment");
+    } else {
+      c.log("transfer: swap(scratch matrix, matrix), the scratch matrix is destroyed");
+      std::unique_ptr<M> x = make_scratch(r); swap(*x, *m); m = std::move(x); c.count("op.transfer.swap");
+    }
+    c.count("op.transfer");
   }
 
   void insert_last() {
@@ -260,6 +347,7 @@ struct Driver {
     const oracle::Cell& cell = F.cells[pos];
     ID id = next_id(c.rng);
     ids.push_back(id);
+    if constexpr (kRU) cids.push_back(id);
     Boundary b = make_boundary(cell);
     if (idmode == 0) {
       if (omit_dim && F.simplicial()) { c.log("insert_boundary " + show_boundary(cell)); m->insert_boundary(b); }
@@ -270,6 +358,7 @@ struct Driver {
     }
     c.count("op.insert_boundary");
     c.count("op.insert_boundary.dim" + vh::str(std::min(cell.dim, 3)));
+    if (saw_max_removal) c.count("op.insert_boundary.after_maximal_removal");
   }
 
   void remove_last() {
@@ -277,8 +366,40 @@ struct Driver {
       c.log("remove_last");
       m->remove_last();
       F.pop(); ids.pop_back();
+      if constexpr (kRU) cids.pop_back();
       c.count("op.remove_last");
+      if (kVine) c.count("op.remove_last.vine");
       saw_removal = true;
+    }
+  }
+
+  // removes the maximal cell at position q with remove_maximal_cell
+  void remove_maximal(size_t q, vh::Rng& r) {
+    if constexpr (kRmc1) {
+      const bool last = q + 1 == F.size();
+      bool two_args = false;
+      if constexpr (kRmc2) two_args = r.chance(1, 2);
+      if (two_args) {
+        if constexpr (kRmc2) {
+          std::vector<ID> after(ids.begin() + q + 1, ids.end());
+          c.log("remove_maximal_cell(id " + vh::str(ids[q]) + ", ids after it " + vh::vstr(after) + ")   position " + vh::str(q) + " of " + vh::str(F.size()));
+          m->remove_maximal_cell(ids[q], after);
+          c.count("op.remove_maximal_cell.with_columns_to_swap");
+        }
+      } else {
+        MIdx arg;
+        if constexpr (kRU) arg = kById ? (MIdx)cids[q] : (MIdx)q;   // MatIdx
+        else arg = kByPos ? (MIdx)q : (MIdx)ids[q];                  // chain: IDIdx (position with POSITION indexing)
+        c.log("remove_maximal_cell(" + vh::str(arg) + ")   position " + vh::str(q) + " of " + vh::str(F.size()));
+        m->remove_maximal_cell(arg);
+      }
+      F.erase_at(q);
+      if constexpr (kRU) { ids.pop_back(); cids.erase(cids.begin() + q); }
+      else ids.erase(ids.begin() + q);
+      c.count("op.remove_maximal_cell");
+      c.count(last ? "op.remove_maximal_cell.last" : "op.remove_maximal_cell.not_last");
+      saw_removal = true;
+      if (!last) saw_max_removal = true;
     }
   }
 
@@ -323,9 +444,15 @@ struct Driver {
     cyc.swap(out);
   }
 
+  // Z_p: the library's own column for the bar (row label -> coefficient), read after the cycles.  It is only a witness: when
+  // its support is the returned cycle and it passes every statement as a chain with coefficients, the chain of the bar is
+  // determined and "some chain with this support represents the bar" is proved; otherwise the support alone is judged.
+  typedef std::vector<std::pair<ID, i64>> Witness;
+
   template <class BK>
   Finding check_one(const Sem<BK>& sem, const oracle::Bar& bar, const std::vector<int>& pos, const std::string& sig,
-                    typename BK::Vec& chain, bool& have_chain) {
+                    typename BK::Vec& chain, bool& have_chain, const Witness* wit, int interp,
+                    const std::unordered_map<ID, int>& id2pos) {
     have_chain = false;
     std::string at = " bar (" + vh::str(bar.dim) + ";" + vh::str(bar.birth) + "," + vh::str(bar.death) + ") cycle(positions)=" + vh::vstr(pos);
     for (int x : pos) if (F.cells[x].dim != bar.dim) return Finding::make("cycle.dimension", sig, "cell " + vh::str(x) + " has dimension " + vh::str(F.cells[x].dim) + at);
@@ -337,6 +464,29 @@ struct Driver {
       for (int x : pos) sem.bk.add_to(chain, (size_t)x, 1);
       have_chain = true;
     } else {
+      if (wit != nullptr) {
+        // the witness as a chain over the positions
+        bool usable = true;
+        std::vector<int> sp; typename BK::Vec w = sem.bk.zero();
+        for (auto& e : *wit) {
+          int x;
+          if (interp == 1) { if ((size_t)e.first >= F.size()) { usable = false; break; } x = (int)e.first; }
+          else { auto it = id2pos.find(e.first); if (it == id2pos.end()) { usable = false; break; } x = it->second; }
+          sp.push_back(x); sem.bk.add_to(w, (size_t)x, e.second);
+        }
+        std::sort(sp.begin(), sp.end());
+        if (usable && sp == pos) {
+          std::string detail;
+          std::string id = sem.check_chain(w, bar, !kRU, detail);
+          if (id.empty()) {
+            chain = w; have_chain = true;
+            c.count("state.zp.chain_from_witness"); c.count("cmp.cycle.semantic");
+            if (bar.death >= 0) c.count("cmp.cycle.semantic.finite"); else c.count("cmp.cycle.semantic.essential");
+            return Finding::ok();
+          }
+          c.count("info.zp.witness_chain_rejected." + id);
+        } else c.count("info.zp.witness_support_differs_from_cycle");
+      }
       // recover the coefficients: cycles supported in the returned support
       std::vector<std::vector<i64>> cols;
       for (int x : pos) { std::vector<i64> col(F.size(), 0); for (auto& f : F.cells[x].bdry) col[f.first] = oracle::mod_norm(col[f.first] + f.second, p); cols.push_back(col); }
@@ -382,7 +532,7 @@ struct Driver {
   };
   template <class BK>
   Finding evaluate_list(const Sem<BK>& sem, int interp, const std::vector<std::vector<ID>>& all, const std::vector<oracle::Bar>& bars,
-                        const NestStat& ns, const std::string& sig0, ListEval<BK>& le) {
+                        const NestStat& ns, const std::string& sig0, ListEval<BK>& le, const std::vector<Witness>* wits) {
     std::unordered_map<ID, int> id2pos;
     for (size_t i = 0; i < ids.size(); ++i) id2pos[ids[i]] = (int)i;
     std::map<int, size_t> bar_of_birth;
@@ -403,7 +553,7 @@ struct Driver {
     }
     for (size_t i = 0; i < bars.size(); ++i) {
       bool hv = false;
-      Finding f = check_one(sem, bars[i], le.pos[i], bar_sig(sig0, ns, bars[i]) + ",list", le.reps[i], hv);
+      Finding f = check_one(sem, bars[i], le.pos[i], bar_sig(sig0, ns, bars[i]) + ",list", le.reps[i], hv, wits ? &(*wits)[i] : nullptr, interp, id2pos);
       if (f.bad) return f;
       le.have[i] = hv;
     }
@@ -420,7 +570,7 @@ struct Driver {
   // ---- stage 2: get_representative_cycle(bar) for every bar
   template <class BK>
   Finding evaluate_per_bar(const Sem<BK>& sem, int interp, const std::vector<std::vector<ID>>& perbar, const std::vector<oracle::Bar>& bars,
-                           const NestStat& ns, const std::string& sig0, const ListEval<BK>& le) {
+                           const NestStat& ns, const std::string& sig0, const ListEval<BK>& le, const std::vector<Witness>* wits) {
     std::unordered_map<ID, int> id2pos;
     for (size_t i = 0; i < ids.size(); ++i) id2pos[ids[i]] = (int)i;
     std::vector<typename BK::Vec> reps(le.reps); std::vector<char> have(le.have);
@@ -431,7 +581,7 @@ struct Driver {
       if (pos == le.pos[i]) { c.count("cmp.per_bar_equals_list"); continue; }
       any_diff = true; c.count("info.per_bar_differs_from_list");
       bool hv = false;
-      Finding f = check_one(sem, bars[i], pos, bar_sig(sig0, ns, bars[i]) + ",per_bar", reps[i], hv);
+      Finding f = check_one(sem, bars[i], pos, bar_sig(sig0, ns, bars[i]) + ",per_bar", reps[i], hv, wits ? &(*wits)[i] : nullptr, interp, id2pos);
       if (f.bad) return f;
       have[i] = hv;
     }
@@ -444,55 +594,96 @@ struct Driver {
     return Finding::ok();
   }
 
+  // reads the library's column for every bar (Z_p only, after the cycles have been returned)
+  void read_witnesses(const std::vector<oracle::Bar>& bars, std::vector<Witness>& wits) {
+    if constexpr (kWitness) {
+      ID maxlabel = 0;
+      for (ID x : ids) maxlabel = std::max(maxlabel, x);
+      const int len = (int)std::max<size_t>(F.size(), (size_t)maxlabel + 1);
+      wits.assign(bars.size(), Witness());
+      for (size_t i = 0; i < bars.size(); ++i) {
+        std::vector<Element> content;
+        if constexpr (kRU) {
+          c.log("get_column(" + vh::str(bars[i].birth) + ", false)");
+          content = m->get_column((MIdx)bars[i].birth, false).get_content(len);
+        } else {
+          c.log("get_column(get_column_with_pivot(" + vh::str(ids[bars[i].birth]) + "))");
+          content = m->get_column(m->get_column_with_pivot(ids[bars[i].birth])).get_content(len);
+        }
+        for (size_t x = 0; x < content.size(); ++x) {
+          i64 v = oracle::mod_norm((i64)content[x], p);
+          if (v) wits[i].emplace_back((ID)x, v);
+        }
+        c.count("obs.zp.witness_column");
+      }
+    }
+  }
+
   template <class BK>
-  bool observe_with(const std::string& sig0, const std::vector<oracle::Bar>& bars, const NestStat& ns, const std::map<int, GBar>& gbar) {
+  bool observe_with(const std::string& sig0, const std::vector<oracle::Bar>& bars, const NestStat& ns, const std::map<int, GBar>& gbar,
+                    bool per_bar_first) {
     Sem<BK> sem(F.cells, p);
-    std::vector<std::vector<ID>> all;
-    c.log("get_representative_cycles");
-    {
+    std::vector<std::vector<ID>> all, perbar;
+    auto fetch_list = [&]() {
+      c.log("get_representative_cycles");
       const auto& got = m->get_representative_cycles();
       for (const auto& cy : got) all.emplace_back(cy.begin(), cy.end());
-    }
-    c.count("obs.get_representative_cycles");
+      c.count("obs.get_representative_cycles");
+    };
+    auto fetch_per_bar = [&]() {
+      for (const auto& b : bars) {
+        GBar gb((Pos)b.birth, b.death < 0 ? GBar::inf : (Pos)b.death, b.dim);
+        if constexpr (kBarcode) gb = gbar.at(b.birth);
+        c.log("get_representative_cycle (" + vh::str(b.dim) + ";" + vh::str(b.birth) + "," + vh::str(b.death) + ")");
+        const auto& cy = m->get_representative_cycle(gb);
+        perbar.emplace_back(cy.begin(), cy.end());
+        c.count("obs.get_representative_cycle");
+      }
+    };
+    // the first (lazy) computation is triggered by the per-bar query half of the time
+    if (per_bar_first) { fetch_per_bar(); fetch_list(); c.count("op.lazy_first_get.through_per_bar_query"); }
+    else { fetch_list(); }
     for (auto& cy : all) normalise_repeats(cy, sig0, "list");
+
+    std::vector<Witness> wits;
+    const std::vector<Witness>* wp = nullptr;
+    // (one observation in eight judges the supports alone, as for the flavour that offers no witness)
+    if (p != 2 && kWitness && !c.rng.chance(1, 8)) {
+      if (!per_bar_first) { fetch_per_bar(); }
+      read_witnesses(bars, wits); wp = &wits;
+    }
 
     // interpretation of the entries: the documentation says "row indices" (ids); RU matrices return positions.  With
     // ids == positions both agree.  With gapped ids either reading is accepted as long as it makes every statement true
     // for the whole observation.
     int interp = kRU ? 1 : 0;
     ListEval<BK> le;
-    Finding f = evaluate_list(sem, interp, all, bars, ns, sig0, le);
+    Finding f = evaluate_list(sem, interp, all, bars, ns, sig0, le, wp);
     if (f.bad && idmode == 2) {
       ListEval<BK> le2;
-      Finding g = evaluate_list(sem, 1 - interp, all, bars, ns, sig0, le2);
+      Finding g = evaluate_list(sem, 1 - interp, all, bars, ns, sig0, le2, wp);
       if (!g.bad) { f = g; le = le2; interp = 1 - interp; c.count("info.gapped_ids.other_index_reading_accepted"); }
     }
     if (f.bad) { c.violation(f.check, f.sig, f.detail); return false; }
     if (idmode == 2) c.count(interp ? "info.gapped_ids.cycle_entries_read_as_positions" : "info.gapped_ids.cycle_entries_read_as_ids");
 
-    std::vector<std::vector<ID>> perbar;
-    for (const auto& b : bars) {
-      GBar gb((typename M::Pos_index)b.birth, b.death < 0 ? GBar::inf : (typename M::Pos_index)b.death, b.dim);
-      if constexpr (kBarcode) gb = gbar.at(b.birth);
-      c.log("get_representative_cycle (" + vh::str(b.dim) + ";" + vh::str(b.birth) + "," + vh::str(b.death) + ")");
-      const auto& cy = m->get_representative_cycle(gb);
-      perbar.emplace_back(cy.begin(), cy.end());
-      c.count("obs.get_representative_cycle");
-    }
+    if (perbar.empty() && !bars.empty()) fetch_per_bar();
     for (auto& cy : perbar) normalise_repeats(cy, sig0, "per_bar");
-    f = evaluate_per_bar(sem, interp, perbar, bars, ns, sig0, le);
+    f = evaluate_per_bar(sem, interp, perbar, bars, ns, sig0, le, wp);
     if (f.bad) { c.violation(f.check, f.sig, f.detail); return false; }
     return true;
   }
 
-  // returns false after reporting a violation
+  // returns false after reporting a violation.  call_update false: the cycles are read without update_representative_cycles
+  // (first lazy computation, or nothing was modified since the last update)
   bool observe(const std::string& phase, bool call_update) {
     const size_t n = F.size();
     oracle::Reduction red = oracle::reduce(F.cells, p, false);
     const std::vector<oracle::Bar>& bars = red.bars;
     NestStat ns = nest_stat(F.cells, p);
-    // signature: flavour, field, [gapped ids], whether a removal happened earlier in the history; the phase goes to the detail
-    std::string sig0 = base_sig + (saw_removal ? ",after_removal" : ",no_removal");
+    // signature: flavour, field, [vine], [comparators], [gapped ids], which kind of removal happened earlier in the history;
+    // the phase goes to the detail
+    std::string sig0 = base_sig + (saw_max_removal ? ",after_maximal_cell_removal" : saw_removal ? ",after_removal" : ",no_removal");
     c.log("observe after " + phase);
 
     std::map<int, GBar> gbar;  // birth -> the library's bar object
@@ -510,13 +701,17 @@ struct Driver {
         return false;
       }
     }
+    bool per_bar_first = false;
     if (call_update) { c.log("update_representative_cycles"); m->update_representative_cycles(); c.count("op.update_representative_cycles"); }
-    else c.count("op.lazy_first_get");
-    if (!((p == 2) ? observe_with<Z2Backend>(sig0, bars, ns, gbar) : observe_with<ZpBackend>(sig0, bars, ns, gbar))) return false;
+    else if (obs_done == 0) { c.count("op.lazy_first_get"); per_bar_first = !bars.empty() && c.rng.chance(1, 2); }
+    else c.count("op.read_without_update_after_transfer");
+    if (!((p == 2) ? observe_with<Z2Backend>(sig0, bars, ns, gbar, per_bar_first) : observe_with<ZpBackend>(sig0, bars, ns, gbar, per_bar_first))) return false;
 
     // statistics
     ++obs_done; c.count("obs.complete");
     c.count("obs.after." + phase);
+    if (saw_max_removal) c.count("obs.after_maximal_cell_removal");
+    if (kVine && saw_removal) c.count(kRU ? "obs.ru_vine_after_removal" : kCmp ? "obs.chain_vine_comparators_after_removal" : "obs.chain_vine_after_removal");
     c.count("obs.bars", bars.size());
     int fin = 0, dmax = 0;
     for (auto& b : bars) { if (b.death >= 0) ++fin; dmax = std::max(dmax, b.dim); if (ns.nested_zero[b.birth]) c.count("state.bar_with_nested_sources"); }
@@ -527,6 +722,7 @@ struct Driver {
     if (ns.chain3) c.count("state.complex_with_reduction_chain_ge3");
     if (fin >= 3) c.count("state.complex_with_ge3_finite_bars");
     if (n == 0) c.count("state.empty_matrix");
+    if (n >= 150) c.count("state.complex_with_ge150_cells");
     return true;
   }
 
@@ -534,45 +730,60 @@ struct Driver {
   void run(const char* name) {
     vh::Rng& r = c.rng;
     const Library& L = Library::get();
+    if (kZ2) p = 2;
+    else {
+      // two cases per 500 use a prime close to 2^15.5 / 2^16 (their table of inverses costs seconds)
+      long km = c.k % 500;
+      if (km == 17) p = 46349;
+      else if (km == 283) p = 65521;
+      else { unsigned x = (unsigned)r.below(100); p = x < 15 ? 2 : x < 42 ? 3 : x < 57 ? 5 : x < 69 ? 7 : x < 80 ? 11 : 251; }
+    }
+    // thorough tier: some large complexes (Z_2 linear algebra only)
+    const bool big = c.thorough && p == 2 && r.chance(1, 50);
     unsigned cls = (unsigned)r.below(100);
     const Universe* U = nullptr; std::string clsname;
-    if (cls < 30) { U = &L.us[r.below(3)]; clsname = "simplicial"; }
+    if (big) { U = &L.us[Library::kFirstBig + r.below(Library::kNumBig)]; clsname = U->simplicial ? "simplicial" : "cubical"; c.count("class.big"); }
+    else if (cls < 30) { U = &L.us[r.below(3)]; clsname = "simplicial"; }
     else if (cls < 50) { U = &L.us[3 + r.below(5)]; clsname = "surface"; }
     else if (cls < 70) { U = &L.us[8 + r.below(4)]; clsname = "cubical"; }
     else { clsname = "algebraic"; }
-    if (kZ2) p = 2;
-    else { unsigned x = (unsigned)r.below(100); p = x < 15 ? 2 : x < 50 ? 3 : x < 70 ? 5 : x < 85 ? 7 : 11; }
     F.init(U, p);
+    F.rescale = U != nullptr && p > 2 && r.chance(1, 2);
+    if (F.rescale) c.count("class.rescaled_by_units");
     unsigned im = (unsigned)r.below(100);
     idmode = im < 8 ? 2 : im < 35 ? 1 : 0;
-    // instantiations with the vine option are an extra beyond the option sets of the *_rep tests: ids with gaps are not
-    // used there (removal with ids != positions is the business of C05/C06; see spec.py "assumptions")
-    if (O::has_vine_update && idmode == 2) { idmode = 1; c.count("skip.gapped_ids_with_vine_option"); }
+    // RU matrices with the vine option and row identifiers different from the positions are a recorded finding of C06
+    // (known_findings.json, config ru_*+gap): not used here
+    if (kVine && kRU && idmode == 2) { idmode = 1; c.count("skip.gapped_ids_with_ru_vine_option"); }
+    // chain + vine with removals: ids are always given explicitly (what an implicit id is after a removal is not defined
+    // consistently: "the n-th insertion" / "the position")
+    if (kVine && !kRU && kRemovable && idmode == 0) idmode = r.chance(1, 4) ? 2 : 1;
     omit_dim = r.chance(1, 2);
-    size_t n0 = 6 + (size_t)r.below(c.thorough ? 46 : 34);
+    size_t n0 = big ? 150 + (size_t)r.below(151) : 6 + (size_t)r.below(c.thorough ? 46 : 34);
     bool batch = (U && U->simplicial && idmode == 0 && r.chance(1, 2));
-    base_sig = std::string(kRU ? "ru" : "chain") + (kZ2 ? ",z2" : (p == 2 ? ",zp_p2" : ",zp")) + (idmode == 2 ? ",gapped_ids" : "");
-    c.log(std::string("config ") + name + " class=" + clsname + (U ? "/" + U->name : "") + " p=" + vh::str(p) + " idmode=" + vh::str(idmode));
+    base_sig = std::string(kRU ? "ru" : "chain") + (kZ2 ? ",z2" : (p == 2 ? ",zp_p2" : ",zp")) + (kVine ? ",vine" : "") +
+               (kCmp ? ",comparators_no_barcode" : "") + (idmode == 2 ? ",gapped_ids" : "");
+    c.log(std::string("config ") + name + " class=" + clsname + (U ? "/" + U->name : "") + " p=" + vh::str(p) + " idmode=" + vh::str(idmode) +
+          (F.rescale ? " cells rescaled by units" : ""));
     c.count("class." + clsname); c.count("idmode." + vh::str(idmode)); c.count("p." + vh::str(p));
 
     std::string phase;
     if (batch) {
       for (size_t i = 0; i < n0; ++i) if (!F.grow(r)) break;
       std::vector<Boundary> cols;
-      for (size_t i = 0; i < F.size(); ++i) { ids.push_back((ID)i); cols.push_back(make_boundary(F.cells[i])); c.log("column " + show_boundary(F.cells[i])); }
+      for (size_t i = 0; i < F.size(); ++i) { ids.push_back((ID)i); if constexpr (kRU) cids.push_back((ID)i); cols.push_back(make_boundary(F.cells[i])); c.log("column " + show_boundary(F.cells[i])); }
       c.log("construct from " + vh::str(cols.size()) + " ordered boundaries");
-      if constexpr (kZ2) m.reset(new M(cols)); else m.reset(new M(cols, (typename M::Characteristic)p));
+      m = make_matrix(2, 0, &cols);
       c.count("op.construct_batch");
       phase = "build_batch";
     } else {
       if (r.chance(1, 2)) {
         c.log("construct empty + set_characteristic");
-        m.reset(new M());
-        if constexpr (!kZ2) m->set_characteristic((typename M::Characteristic)p);
+        m = make_matrix(0, 0, nullptr);
       } else {
         unsigned res = (unsigned)r.below(2 * n0 + 1);
         c.log("construct with reserve " + vh::str(res));
-        if constexpr (kZ2) m.reset(new M(res)); else m.reset(new M(res, (typename M::Characteristic)p));
+        m = make_matrix(1, res, nullptr);
       }
       c.count("op.construct_incremental");
       // optionally observe once in the middle of the construction, so that the final update replaces older cycles
@@ -580,30 +791,57 @@ struct Driver {
       for (size_t i = 0; i < n0; ++i) {
         if (!F.grow(r)) break;
         insert_last();
-        if (i + 1 == mid && i + 1 < n0) { if (!observe("build_partial", r.chance(1, 2))) return; }
+        if (i + 1 == mid && i + 1 < n0) {
+          if (!observe("build_partial", r.chance(1, 2))) return;
+          if (r.chance(1, 6)) transfer(r);
+        }
       }
       phase = "build_incremental";
     }
+    if (r.chance(1, 6)) transfer(r);   // before the cycles of the final complex are computed
     if (!observe(phase, obs_done > 0 || r.chance(1, 2))) return;
+    // nothing is modified between the observation and the transfer: the cycles may be read without an update
+    if (r.chance(1, 4)) { transfer(r); if (!observe("transfer", r.chance(1, 2))) return; }
     if (r.chance(1, 3)) { if (!observe("second_update", true)) return; }
 
     if constexpr (kRemovable) {
       int rounds = (int)r.below(4);
-      for (int rd = 0; rd < rounds; ++rd) {
-        size_t k = r.chance(1, 6) ? 0 : 1 + (size_t)r.below(std::min<size_t>(F.size(), 10));
-        if (r.chance(1, 25)) k = F.size();  // down to the empty matrix
+      for (int rd = 0; rd < rounds && !no_more_insertions; ++rd) {
+        const size_t kmax = big ? 40 : 10, jmax = big ? 61 : 13;
+        size_t k = r.chance(1, 6) ? 0 : 1 + (size_t)r.below(std::min<size_t>(F.size(), kmax));
+        if (r.chance(1, 25) && !big) k = F.size();  // down to the empty matrix
         k = std::min(k, F.size());
-        for (size_t i = 0; i < k; ++i) remove_last();
-        if (k > 0 && r.chance(1, 2)) { if (!observe("remove_last", true)) return; }
-        size_t j = (size_t)r.below(13);
+        // with remove_maximal_cell: half of the rounds remove random maximal cells (preferably not the last one)
+        bool use_rmc = false;
+        if constexpr (kRmc1) use_rmc = r.chance(1, 2);
+        // RU + IDENTIFIER indexing: after the removal of a cell that is not the last one no id is admissible for a new cell
+        // (the implicit one collides with a living cell, a fresh one differs from its position: the recorded C06 finding),
+        // so that such removals only happen in a last round without insertions
+        if (use_rmc && kRU && kById) { if (rd + 1 == rounds) no_more_insertions = true; else use_rmc = false; }
+        for (size_t i = 0; i < k; ++i) {
+          if (use_rmc) {
+            std::vector<size_t> cand;
+            for (size_t q = 0; q < F.size(); ++q) if (F.maximal(q)) cand.push_back(q);
+            size_t q = cand[r.below(cand.size())];
+            if (q + 1 == F.size() && cand.size() > 1 && r.chance(3, 4)) q = cand[r.below(cand.size() - 1)];
+            remove_maximal(q, r);
+          } else remove_last();
+        }
+        if (k > 0 && r.chance(1, 5)) transfer(r);
+        if (k > 0 && (no_more_insertions || r.chance(1, 2))) { if (!observe(use_rmc ? "remove_maximal_cell" : "remove_last", true)) return; }
+        if (no_more_insertions) break;
+        size_t j = (size_t)r.below(jmax);
         if (F.size() == 0 && j == 0) j = 3;
         for (size_t i = 0; i < j; ++i) { if (!F.grow(r)) break; insert_last(); }
+        if (k > 0 && r.chance(1, 8)) transfer(r);
         if (!observe(k > 0 ? "remove_and_reinsert" : "insert_more", true)) return;
       }
     }
+    if (kCmp && *cmp_calls) c.count("info.comparator_called", (uint64_t)*cmp_calls);
     if (obs_done >= 1 && max_cells >= 12 && max_finite >= 3 && max_dim_bar >= 1) c.nontrivial(vh::hash_str(vh::G().history));
     if (saw_nested) c.count("case.with_nested_reduction");
     if (saw_removal) c.count("case.with_removal");
+    if (saw_max_removal) c.count("case.with_maximal_cell_removal");
     c.count("case.complete");
     c.sample("{\"config\":\"" + std::string(name) + "\",\"history\":\"" + vh::jesc(vh::G().history.substr(0, 900)) + "\"}");
   }
@@ -615,7 +853,8 @@ void run_case(vh::Case& c, const char* name) {
   try {
     d.run(name);
   } catch (const std::exception& e) {
-    c.violation("library.exception", d.base_sig + ",what=" + e.what(), std::string("exception from the library: ") + e.what());
+    c.violation("library.exception", d.base_sig + (d.saw_max_removal ? ",after_maximal_cell_removal" : d.saw_removal ? ",after_removal" : ",no_removal") + ",what=" + e.what(),
+                std::string("exception from the library: ") + e.what());
   }
 }
 
@@ -625,9 +864,11 @@ void run_case(vh::Case& c, const char* name) {
 #define C08_IX(x) Gudhi::persistence_matrix::Column_indexation_types::x
 // C08_INST(config name, Z2?, column type, RU? (else chain), indexing, barcode?, max-dim access?, map container?, row access 0/1/2,
 //          removable rows?, vine option?)
-#define C08_INST(name, z2, ct, ru, ix, bc, md, mc, ra, rr, vn)                                      \
-  typedef c08::Opt<z2, C08_CT(ct), ru, C08_IX(ix), bc, md, mc, ra, rr, vn> VH_CAT(c08_opt_, __LINE__); \
+// C08_INSTX: the same + extra flags (1: has_column_and_row_swaps, 2: Index = int)
+#define C08_INSTX(name, z2, ct, ru, ix, bc, md, mc, ra, rr, vn, xf)                                     \
+  typedef c08::Opt<z2, C08_CT(ct), ru, C08_IX(ix), bc, md, mc, ra, rr, vn, xf> VH_CAT(c08_opt_, __LINE__); \
   static void VH_CAT(c08_fn_, __LINE__)(vh::Case& c) { c08::run_case<VH_CAT(c08_opt_, __LINE__)>(c, name); } \
   VH_CONFIG(name, VH_CAT(c08_fn_, __LINE__))
+#define C08_INST(name, z2, ct, ru, ix, bc, md, mc, ra, rr, vn) C08_INSTX(name, z2, ct, ru, ix, bc, md, mc, ra, rr, vn, 0)
 
 #endif  // VERIF_C08_BODY_H_
